@@ -50,7 +50,12 @@ SPEC = {
              "(getRank of every rank, getTensor, getFiber(), getSubTree()) against the raw tree as it is now; for the "
              "three fixed tensors every subset of omitted rank entries x each rank, and 15% of the random cases: the "
              "specification the first Format filled in is taken back, 1-4 fields of ONE rank's entry are set, and it is "
-             "given to a second Format (all getters of every rank + the sums; every other entry must be unchanged).  Per case: "
+             "given to a second Format (all getters of every rank + the sums; every other entry must be unchanged); (viii) the "
+             "later use of (vii) on tensors WITHOUT a declared shape: every grid tree (fromFiber / setRoot, no shape) x "
+             "CU/UC/UU x one Tensor.getPayloadRef(point) <<= v at 11 points lying inside, exactly at (coordinate == shape: "
+             "one past the largest coordinate stored so far) or beyond the shape the tree defined so far in either rank, "
+             "and 40% of the random undeclared finished trees with 1-3 such writes (coordinates 0..extent+2); the same and "
+             "a fresh Format are asked again with the shape of every rank taken from the present raw tree.  Per case: "
              "getRoot, getTensor, getRank of every rank (before and after the other queries), getFiber and getSubTree at "
              "every stored proper prefix and at absent prefixes, all spec getters.  Non-trivial = the tree stores at "
              "least one element and at least one rank contributes a positive number of bits; distinct = distinct case."),
@@ -68,7 +73,9 @@ SPEC = {
                              "undeclared_u_fibers_shorter_than_rank": 1000,
                              "update_cases": 3000, "update_set_grew_existing_fiber": 500, "update_reroots": 1500,
                              "update_reroot_reused_own_subfibers": 1500, "requery_checked": 30000,
-                             "respec_cases": 800, "respec_with_omitted_other_rank": 80, "respec_fields_checked": 10000},
+                             "respec_cases": 800, "respec_with_omitted_other_rank": 80, "respec_fields_checked": 10000,
+                             "update_undeclared_cases": 2500, "update_undeclared_coord_created_at_shape": 1200,
+                             "update_undeclared_coord_created_beyond_shape": 1200},
                    "thorough": {"evaluations": 60000, "oracle_evals": 1000000, "contract_evals": 1000000,
                                 "getFiber_checked": 100000, "getSubTree_checked": 100000, "dirty_cases": 10000,
                                 "u_absent_children": 40000, "omitted_fields": 100000,
@@ -83,7 +90,9 @@ SPEC = {
                                 "update_cases": 3000, "update_set_grew_existing_fiber": 500, "update_reroots": 1500,
                                 "update_reroot_reused_own_subfibers": 1500, "requery_checked": 30000,
                                 "respec_cases": 800, "respec_with_omitted_other_rank": 80,
-                                "respec_fields_checked": 10000}},
+                                "respec_fields_checked": 10000, "update_undeclared_cases": 2500,
+                                "update_undeclared_coord_created_at_shape": 1200,
+                                "update_undeclared_coord_created_beyond_shape": 1200}},
     "assumptions": [
         "occupancy of a compressed fiber = number of stored elements (len of its raw coordinate list), explicit "
         "defaults and stored empty sub-fibers included",
@@ -93,7 +102,10 @@ SPEC = {
         "than the largest coordinate stored in any fiber of that rank (explicit defaults and empty sub-fibers are "
         "stored elements; 0 when no fiber of the rank stores a coordinate) - which is also what Tensor.getShape() "
         "documents for such a tensor; for fromUncompressed without shape the list lengths of the nest.  A tensor "
-        "without a declared shape is not modified between construction and the Format (its estimate cannot be stale); "
+        "without a declared shape is not modified between construction and the first Format; afterwards it is only "
+        "grown by single-element writes (Tensor.getPayloadRef + <<=, which never remove a coordinate), and 'the largest "
+        "coordinate stored in any fiber of the rank + 1' is then read off the raw tree as it is after the writes - a "
+        "stored coordinate is never outside the shape of its rank; "
         "an output declared without shape and grown by a populate is generated only behind _POPULATE_UNDECLARED "
         "(keys ...:undeclared-populated), see the note there",
         "getSubTree / getFiber with a full-depth point (a leaf, not a fiber) are outside the statement and not called",
@@ -115,8 +127,8 @@ SPEC = {
         "a Format describes the tensor as it is when a footprint is asked for, not as it was when the Format was built: "
         "after an in-place update through the public interface (getPayloadRef + <<= inside the declared shape, setRoot on "
         "the same tensor with a free root re-using its own sub-fibers) the same Format object and a fresh one must both "
-        "give the sums of the present raw tree; only tensors with a declared shape are updated; an update that raises is "
-        "not judged here",
+        "give the sums of the present raw tree; tensors with a declared shape get both kinds of update, finished trees "
+        "without a declared shape (fromFiber / setRoot) only the element writes; an update that raises is not judged here",
         "the specification dictionary a Format has filled in (Format.spec) may be taken back by the caller, adjusted in "
         "ONE rank's entry and given to another Format: the entries of the other ranks (given or defaulted) keep the "
         "values the statement's defaulting gave them",
@@ -297,6 +309,19 @@ def generate(rng, tier, shard, nshards, mon):
                                "update": [upd], "sys": "grid2-update"}
                     idx += 1
     mon.exhaustive["depth2-grid-2x2-x-single-update-then-requery"] = True
+    # (viii) the same later use on a tensor WITHOUT a declared shape (a finished tree handed to fromFiber / setRoot):
+    # one element is written through Tensor.getPayloadRef at a point inside, exactly at, or beyond the shape the tree
+    # defined so far; the shape of a rank is then what the present tree defines
+    for tree in _grid_trees():
+        for fmts in ("CU", "UC", "UU"):
+            for upd in _GRID_UPDATES_UNDECLARED:
+                for build in ("spec", "setroot"):
+                    if idx % nshards == shard:
+                        yield {"kind": "fmt", "build": build, "tree": tree, "rank_ids": ["M", "K"], "shape": None,
+                               "default": 0, "tfmts": None, "spec": _full_spec(["M", "K"], fmts, PRIMES_A),
+                               "update": [upd], "sys": "grid2-undeclared-update"}
+                    idx += 1
+    mon.exhaustive["depth2-grid-2x2-undeclared-x-single-write-then-requery"] = True
     nrand = (20000 if tier == "quick" else 400000) // nshards
     for _ in range(nrand):
         yield _random_case(rng, tier)
@@ -332,6 +357,14 @@ _GRID_UPDATES = [
     ["set", [1, 0], 0], ["reroot", [[0, 0], [1, 1]], False], ["reroot", [[0, 1], [1, 0]], False],
     ["reroot", [[0, 1]], False], ["reroot", [[2, 0]], False], ["reroot", [[1, 0], [2, 1]], False],
     ["reroot", [[0, 1]], True], ["reroot", [], True],
+]
+
+
+# writes of the systematic block (viii): the trees live on a 2x2 grid, so the shape a tree defines per rank is 0, 1 or 2
+# and every point below is inside / exactly at / beyond it for some of the trees
+_GRID_UPDATES_UNDECLARED = [
+    ["set", [0, 0], 4], ["set", [0, 1], 4], ["set", [1, 0], 4], ["set", [1, 1], 4], ["set", [0, 2], 4], ["set", [2, 0], 4],
+    ["set", [2, 2], 4], ["set", [1, 2], 0], ["set", [2, 1], 4], ["set", [3, 3], 4], ["set", [4, 1], 4],
 ]
 
 
@@ -443,6 +476,10 @@ def _random_case(rng, tier):
             else:
                 ups.append(["reroot-random", rng.randrange(1 << 30), rng.random() < 0.3])
         case["update"] = [u for u in ups if u[1] is not None]
+    elif case["shape"] is None and case["build"] in ("spec", "setroot") and rng.random() < 0.4:
+        # ... also without a declared shape: elements are written inside, exactly at, or beyond the extent of the tree
+        case["update"] = [["set", [rng.randrange(e + 3) for e in extents], rng.choice([default, 3, 4, 9])]
+                          for _ in range(rng.choice([1, 1, 2, 3]))]
     # ---- the specification
     mode = rng.choice(["random", "random", "distinct", "sparse"])
     p_omit = rng.choice([0.0, 0.0, 0.3, 0.6])
@@ -1015,13 +1052,26 @@ def run_case(case, mon):
                 reuse_fmt, reuse_raw = fmt3, raw2
         finally:
             _CTX["model"] = _CTX["tensor"] = None
-    if not case.get("update") or shape_src != "declared":
+    if not case.get("update"):
+        return
+    grows = shape_src == "undeclared" and case["build"] in ("spec", "setroot") and \
+        all(op[0] == "set" for op in case["update"])
+    if shape_src != "declared" and not grows:
         return
     # ---- second use: the tensor is modified in place, then the same Format object and a fresh one are asked again;
     # the oracle is rebuilt from the raw tree as it is now
-    info = {"grew_existing": 0, "reused_own": 0, "reroots": 0}
+    info = {"grew_existing": 0, "reused_own": 0, "reroots": 0, "at_shape": 0, "beyond_shape": 0}
     try:
         for op in case["update"]:
+            if grows:
+                # coverage: a coordinate the write creates exactly at / beyond the shape the tree defined so far
+                f, now = t.__dict__.get("_root"), rank_shapes(case, t.__dict__.get("_root"))[0]
+                for d_, c_ in enumerate(op[1]):
+                    known = isinstance(f, Fiber) and c_ in f.coords
+                    if not known:
+                        info["at_shape"] += c_ == now[d_]
+                        info["beyond_shape"] += c_ > now[d_]
+                    f = dict(zip(f.coords, f.payloads)).get(c_) if isinstance(f, Fiber) else None
             _apply_update(t, op, case, info)
     except BaseException as e:      # noqa
         if isinstance(e, KeyboardInterrupt):
@@ -1032,11 +1082,19 @@ def run_case(case, mon):
     mon.count("update_set_grew_existing_fiber", info["grew_existing"])
     mon.count("update_reroots", info["reroots"])
     mon.count("update_reroot_reused_own_subfibers", info["reused_own"])
+    if grows:
+        # no shape was declared: the shape of a rank is what the present raw tree defines
+        shape = rank_shapes(case, t.__dict__.get("_root"))[0]
+        mon.count("update_undeclared_cases")
+        mon.count("update_undeclared_coord_created_at_shape", info["at_shape"])
+        mon.count("update_undeclared_coord_created_beyond_shape", info["beyond_shape"])
     model2 = Model(t, reuse_raw, rids, shape, case["default"])
+    model2.u_tag = model.u_tag
     _CTX["model"], _CTX["tensor"] = model2, t
     try:
         _requery(case, mon, reuse_fmt, model2, ":reused-after-update")
         _CTX["model"] = model2 = Model(t, raw_spec, rids, shape, case["default"])
+        model2.u_tag = model.u_tag
         ok, fresh = _call(mon, "Format", Format, t, copy.deepcopy(raw_spec))
         if ok:
             _requery(case, mon, fresh, model2, ":fresh-after-update")
